@@ -406,11 +406,13 @@ vd_main(int argc, char *argv[], void (*enumerate)(void))
 			long sv_only = vd_only;
 			char sv_desc[sizeof(vd_sh->desc)];
 			long sv_evals = vd_sh->evals;
+			long sv_nontriv = vd_sh->nontriv;
 			memcpy(sv_desc, vd_sh->desc, sizeof(sv_desc));
 			vd_only = at;
 			r = vd_supervise(enumerate, 20 * vd_case_timeout, &st);
 			vd_only = sv_only;
 			vd_sh->evals = sv_evals;
+			vd_sh->nontriv = sv_nontriv;
 			if (r == 0) {
 				/* slow, not hung; its findings were printed by the rerun */
 				vd_count("slow_cases", 1);
